@@ -645,6 +645,9 @@ func genCase(r *gen.Rand) tcase {
 			kind = gen.Pick(r, []int{2, 6, 6, 0})
 		}
 		genGrouping(r, &e)
+		if r.Chance(1, 3) { // one big group: more members than k
+			e.hasGroup, e.without, e.grouping = false, false, nil
+		}
 		c.e = e
 		c.lhs = genVector(r, n, kind, dense)
 	case cls < 12: // count_values
@@ -1025,7 +1028,7 @@ func main() {
 	for _, c := range corpus() {
 		emit(c)
 	}
-	n := f.Count(2500, 60000)
+	n := f.Count(2500, 45000)
 	for i := 0; i < n; i++ {
 		emit(genCase(gen.Fork(f.Seed, i)))
 	}
